@@ -41,6 +41,12 @@ struct T {
   int ident() const { return check("ident").id; }
 };
 
+// an object with a tracked member, handed out by reference through attribute access
+struct Holder {
+  T inner;
+  explicit Holder(int v) : inner(v) {}
+};
+
 static std::string ids(const std::set<int> &s) {
   // the TAGS of the live objects, sorted (object ids depend on how many temporaries the engine made)
   std::vector<int> t;
@@ -89,6 +95,12 @@ int main() {
         chai.add(fun([](int v) { return std::make_unique<T>(v); }), "make_up");
         chai.add(fun([]() -> T & { return *g_owned; }), "owned_ref");
         chai.add(fun([](const T &t) { return T(t.get() * 2); }), "doubled");
+        chai.add(user_type<Holder>(), "Holder");
+        chai.add(constructor<Holder(int)>(), "Holder");
+        chai.add(constructor<Holder(const Holder &)>(), "Holder");
+        chai.add(fun(&Holder::inner), "inner");
+        chai.add(fun([](int v) { return Holder(v); }), "make_holder");
+        chai.add(fun([](Holder &h) -> T & { return h.inner; }), "inner_of");
         chai.add(fun([](int k) { g_cps += std::to_string(k) + ":" + ids(R.live) + ";"; }), "cp");
         chai.add(fun([](const Boxed_Value &) {}), "pr");
         chai.add(fun([]() { if (g_boom++ == g_boom_at) { throw std::runtime_error("boom"); } return 0; }), "boom");
